@@ -1835,6 +1835,7 @@ func (m *Matcher) checkCountLink(st state, wl, rl *Loop, wfr, rfr *frame) {
 		}
 	}
 	m.clampedCount(wfr, wl, rl, rfr)
+	m.readerClampedCount(wl, rl, wfr, rfr)
 	wk := m.loopKeyW(wfr, wl)
 	var rkey interface{}
 	var prefer interface{}
@@ -2755,6 +2756,73 @@ func (m *Matcher) clampedCount(wfr *frame, wl, rl *Loop, rfr *frame) {
 	})
 	if sized && clamp != "" {
 		m.fail("omission", wl, rl, wfr, rfr, "the writer's repetition count %s starts as the size of the collection and is overwritten with %s on some path: the elements beyond it are never written", id.Name, clamp)
+	}
+}
+
+// readerClampedCount: the reader's loop bound is a local that holds the count read from the stream and
+// is assigned again, before the loop, from something that is not a read of the stream (a guess from
+// the bytes left, a cap): on that path the reader repeats fewer times than the writer did and the rest
+// of the elements stay in the stream. (Lowering a negative count to zero changes nothing: such a loop
+// does not run either way.)
+func (m *Matcher) readerClampedCount(wl, rl *Loop, wfr, rfr *frame) {
+	if rl.Bound == nil || rfr.ctx.FI == nil || rfr.ctx.FI.Decl.Body == nil {
+		return
+	}
+	id, ok := ast.Unparen(stripConv(rfr.ctx, rl.Bound)).(*ast.Ident)
+	if !ok {
+		return
+	}
+	info := rfr.ctx.Info
+	obj := info.ObjectOf(id)
+	if obj == nil || !isLocalVar(obj) {
+		return
+	}
+	readsStream := func(e ast.Expr) bool {
+		found := false
+		ast.Inspect(e, func(n ast.Node) bool {
+			if call, ok := n.(*ast.CallExpr); ok {
+				if sel, ok := ast.Unparen(call.Fun).(*ast.SelectorExpr); ok {
+					if t := info.TypeOf(sel.X); t != nil && m.X.IsIn(t) && strings.HasPrefix(sel.Sel.Name, "Read") {
+						found = true
+					}
+				}
+				for _, a := range call.Args {
+					if t := info.TypeOf(a); t != nil && m.X.IsIn(t) {
+						found = true
+					}
+				}
+			}
+			return true
+		})
+		return found
+	}
+	fromStream, clamp := false, ""
+	ast.Inspect(rfr.ctx.FI.Decl.Body, func(n ast.Node) bool {
+		as, ok := n.(*ast.AssignStmt)
+		if !ok || len(as.Lhs) != len(as.Rhs) || as.Pos() > rl.Pos {
+			return true
+		}
+		for i, l := range as.Lhs {
+			lid, ok := l.(*ast.Ident)
+			if !ok || info.ObjectOf(lid) != obj {
+				continue
+			}
+			if readsStream(as.Rhs[i]) {
+				fromStream = true
+				continue
+			}
+			if as.Tok != token.ASSIGN {
+				continue
+			}
+			if tv, ok := info.Types[as.Rhs[i]]; ok && tv.Value != nil && tv.Value.ExactString() == "0" {
+				continue
+			}
+			clamp = types.ExprString(as.Rhs[i])
+		}
+		return true
+	})
+	if fromStream && clamp != "" {
+		m.fail("countlink", wl, rl, wfr, rfr, "the reader's repetition count %s is read from the stream and then overwritten with %s on some path: it repeats fewer times than the writer did and leaves the remaining elements unread", id.Name, clamp)
 	}
 }
 
